@@ -69,6 +69,11 @@ NAMES = ['a', 'b', 'c', 'd', 'e', 'vsum', 'vprod']
 
 
 def gen(rnd, depth):
+    if depth >= 2 and rnd.random() < 0.15:
+        # a sub-expression bound to a python variable and used several times (the same node object, also negated)
+        sub = gen(rnd, depth - 1)
+        body = rnd.choice(['(n - (-n))', '((-n) + (n * 2.0))', '((-n) * n)', '(n + (-(-n)))', '((2.0 * n) - (-(2.0 * n)) + n)'])
+        return '(lambda n: %s)(%s)' % (body, sub)
     if depth == 0 or rnd.random() < 0.25:
         r = rnd.random()
         if r < 0.7:
@@ -103,6 +108,9 @@ def exhaustive_depth2():
             yield '(%s %s a)' % (agg, o1)
             yield '(-%s)' % agg
             yield '(2.0 %s %s)' % (o1, agg)
+    for sub in ('(-a)', '(2.0 * a)', '(a * 3.0)', '(-(a + b))'):
+        for body in ('(n - (-n))', '((-n) + (n * 2.0))', '(n + (-(-n)))'):
+            yield '(lambda n: %s)(%s)' % (body, sub)
     for o1 in BIN[:6]:
         yield '((-a) %s b)' % o1
         yield '(a %s (-b))' % o1
